@@ -15,6 +15,7 @@ pub tracked struct DW {
     pub ghost wrote: nat,                     // db.write calls so far
     pub ghost registered: bool,               // the region is in the Regions table (id -> slot)
     pub ghost refs: nat,                      // Arc strong count of the region handle
+    pub ghost slot: (usize, usize, usize),    // (start, len, reserved) as last written to the region's slot of the metadata file
 }
 
 impl DW {
@@ -99,7 +100,10 @@ impl MetaW {
         requires start % 4096 == 0
         ensures *final(w) == (DW { start: start, ..*old(w) })
     { unimplemented!() }
-    #[verifier::external_body] pub fn write_if_dirty(&self, index: usize, regions: &RegionsR) { unimplemented!() }
+    // RegionMetadata::write_if_dirty: the slot of the metadata file gets the metadata as they stand now (every setter marks them dirty)
+    #[verifier::external_body] pub fn write_if_dirty(&self, index: usize, regions: &RegionsR, Tracked(w): Tracked<&mut DW>)
+        ensures *final(w) == (DW { slot: (old(w).start, old(w).len, old(w).reserved), ..*old(w) })
+    { unimplemented!() }
 }
 #[verifier::external_body] pub struct RegionsW { _p: core::marker::PhantomData<u8> }
 impl RegionsW {
